@@ -165,22 +165,42 @@ def loop_vars_over_children(funcnode, spec, al):
 
 
 def instantiated_classes(prog):
-    """Classes constructed somewhere in the program (Name(...) / mod.Name(...) /
-    self.__class__(...) inside the class itself)."""
+    """Classes referenced as values somewhere (constructed, stored in a class
+    attribute such as `matcher_type = UnionMatcher`, passed as an argument, or
+    reached as a nested class through self.X): an over-approximation of the
+    classes that can be instantiated."""
     cache = getattr(prog, "_instantiated", None)
     if cache is not None:
         return cache
     out = set()
+
+    def note(r):
+        if r is not None and r[0] == "class":
+            out.add(r[1].qualname)
+
     for f in prog.functions.values():
-        for c in norm.calls_in(f.node, include_nested_defs=True):
-            fn = c.func
-            if isinstance(fn, (ast.Name, ast.Attribute)):
-                if norm.canon(fn) in ("self.__class__", "cls") and f.cls is not None:
+        for n in ast.walk(f.node):
+            if isinstance(n, (ast.Name, ast.Attribute)) and isinstance(getattr(n, "ctx", None), ast.Load):
+                if isinstance(n, ast.Attribute) and isinstance(n.value, ast.Name) and n.value.id in ("self", "cls") \
+                        and f.cls is not None:
+                    for k in prog.mro(f.cls):
+                        if not isinstance(k, str) and n.attr in k.nested:
+                            out.add(k.nested[n.attr].qualname)
+                            break
                     continue
-                r = prog.resolve_in_func(f, fn)
-                if r is not None and r[0] == "class":
-                    out.add(r[1].qualname)
-    # a class is also instantiated through self.__class__ if any subclass/itself is
+                try:
+                    note(prog.resolve_in_func(f, n))
+                except Exception:
+                    pass
+    for c in prog.classes.values():
+        for v in c.attrs.values():
+            if isinstance(v, (ast.Name, ast.Attribute)):
+                note(prog.resolve_expr(c.module, v, c))
+    for m in prog.modules.values():
+        for v in m.assigns.values():
+            for n in ast.walk(v):
+                if isinstance(n, (ast.Name, ast.Attribute)):
+                    note(prog.resolve_expr(m, n))
     prog._instantiated = out
     return out
 
